@@ -13,6 +13,7 @@ import (
 
 	"github.com/cbeuw/Cloak/internal/common"
 	"github.com/cbeuw/Cloak/internal/server/usermanager"
+	"github.com/cbeuw/Cloak/internal/verifhook"
 )
 
 type RawConfig struct {
@@ -214,6 +215,7 @@ const replayCacheAgeLimit = 12 * time.Hour
 func (sta *State) UsedRandomCleaner() {
 	for {
 		time.Sleep(replayCacheAgeLimit)
+		verifhook.At("state.cleaner.tick")
 		sta.usedRandomM.Lock()
 		for key, t := range sta.UsedRandom {
 			if time.Unix(t, 0).Before(sta.WorldState.Now().Add(timestampTolerance)) {
@@ -227,6 +229,7 @@ func (sta *State) UsedRandomCleaner() {
 func (sta *State) registerRandom(r [32]byte) bool {
 	sta.usedRandomM.Lock()
 	_, used := sta.UsedRandom[r]
+	verifhook.At("state.random.checked")
 	sta.UsedRandom[r] = sta.WorldState.Now().Unix()
 	sta.usedRandomM.Unlock()
 	return used
